@@ -284,6 +284,7 @@ func runC07(r *core.Run) {
 			core.Harness("C07 scenario: %v", err)
 		}
 		ty := protoTypeOfScenario(sc.Type, sc.Shape, sc.Sparse, sc.NoMaps)
+		warmProto(ty.rt)
 		c := &c07Ctx{r: r, ty: ty, precise: true}
 		x, err, ok := c.decode(sc.Input, "scenario")
 		if ok && sc.Base != nil {
@@ -323,6 +324,7 @@ func runC07(r *core.Run) {
 		return
 	}
 	c := &c07Ctx{r: r, ty: ty, precise: true}
+	warmProto(ty.rt)
 	base, err, ok := c.decode(e, "valid")
 	if !ok {
 		return
@@ -572,6 +574,7 @@ func runC07(r *core.Run) {
 	// 7. cross-type decode: the bytes of this message into another type
 	for i := 0; i < 3; i++ {
 		oty := c07Type(t)
+		warmProto(oty.rt)
 		oc := &c07Ctx{r: r, ty: oty, precise: false}
 		if _, _, ok := oc.decode(e, "cross-type"); !ok {
 			return
@@ -591,6 +594,15 @@ func runC07(r *core.Run) {
 		r.Fault("random-bytes")
 	}
 	r.Steps += r.Evaluations
+}
+
+// warmProto makes the library build its codec for rt before anything is
+// measured: the per-type tables (indexed by field number) are a one-time cost
+// of the type, not memory allocated on behalf of an input.
+func warmProto(rt reflect.Type) {
+	defer func() { recover() }()
+	x := reflect.New(rt)
+	proto.Unmarshal([]byte{0xf8, 0xff, 0xff, 0xff, 0x0f, 0x00}, x.Interface())
 }
 
 func schemaDeclares(s *ref.PSchema, num uint64) bool { return s.Declared[num] }
